@@ -68,7 +68,7 @@ Render(b) == IF b.fin = "hid" THEN <<>> ELSE RenderFrom(Tpl(b.tpl), 1, <<>>, <<>
 (* ------------------------------ state ---------------------------------- *)
 SInit(w, h, multi, mphid, align) ==
     [w |-> w, h |-> h, multi |-> multi, mphid |-> mphid, align |-> align,
-     above |-> <<>>, order |-> <<>>, bars |-> <<>>, ids |-> {}, bottom |-> 0, everBottom |-> align = "bottom", blanked |-> FALSE, faulty |-> FALSE, wasCut |-> FALSE]
+     above |-> <<>>, order |-> <<>>, bars |-> <<>>, ids |-> {}, bottom |-> 0, everBottom |-> align = "bottom", blanked |-> FALSE, faulty |-> FALSE, wasCut |-> FALSE, pty |-> FALSE]
 
 NewBar(r, vis, inmp) ==
     [tpl |-> r.tpl, msg |-> r.m0, prefix |-> r.p0, pos |-> r.pos0, len |-> r.len, fin |-> "no",
@@ -120,9 +120,9 @@ Apply(S, r) ==
         fin(how, m) == Res(Req(SetBar(S, b, FinishRec(B, how, m)), b), <<>>, vis, FALSE)
     IN
     CASE r.op = "new" ->
-            LET v == r.target \in {"spy", "spy_hz"} IN
+            LET v == r.target \in {"spy", "spy_hz", "pty"} IN      \* "pty": a real console::Term on a pseudo-terminal
             Plain([S EXCEPT !.bars = S.bars @@ (b :> NewBar(r, v, FALSE)), !.ids = S.ids \cup {b},
-                            !.order = IF v THEN Append(S.order, b) ELSE S.order])
+                            !.order = IF v THEN Append(S.order, b) ELSE S.order, !.pty = r.target = "pty"])
       [] r.op \in {"add", "insert", "insert_from_back", "insert_before", "insert_after"} ->
             LET o == S.order
                 p == CASE r.op = "add" -> Len(o)
